@@ -4,7 +4,7 @@ from __future__ import annotations
 import ast
 
 from .common import site_of
-from .flow import (both_answers, Oblig, calls, events, deps_of, arg_deps, SELF, P, facts_on_path, has_fact, check_escapes)
+from .flow import (helpers_of, both_answers, Oblig, calls, events, deps_of, arg_deps, SELF, P, facts_on_path, has_fact, check_escapes)
 
 LL = "pyformlang.cfg.llone_parser.LLOneParser"
 EXPLANATION = (
@@ -15,6 +15,17 @@ EXPLANATION = (
     "fills accumulate in the cell list and is_llone_parsable reads every cell's length (R1); the FIRST and FOLLOW "
     "worklists re-queue dependants only when a set grew (R10a). Not decided: that FIRST / FOLLOW equal the textbook "
     "sets.")
+
+
+def _requeues(call, helpers, depth=0):
+    """The call puts something on a worklist: `.append(..)` / `.put(..)`, or a private helper that does."""
+    if isinstance(call.func, ast.Attribute) and call.func.attr in ("append", "put", "appendleft", "extend"):
+        return True
+    name = call.func.attr if isinstance(call.func, ast.Attribute) else getattr(call.func, "id", None)
+    h = helpers.get(name) if name and name.startswith("_") else None
+    if h is not None and depth < 2:
+        return any(_requeues(c, helpers, depth + 1) for c in ast.walk(h) if isinstance(c, ast.Call))
+    return False
 
 
 def run(eng, rep, tier):
@@ -84,7 +95,13 @@ def run(eng, rep, tier):
               site=(restricted[0].site.to_json() if restricted else site_of(prog, ft, ft.node)))
     rd = deps_of(st_.ret)
     CFGL = ("self", ("_cfg",))
-    ob.decide("R1", "C14.2", ft, "follow-fill-for-nullable", any(isinstance(d, tuple) and d and d[0] == "NULLABLE" for d in rd),
+    def _nullable_dep(ds):
+        return any(isinstance(d, tuple) and d and d[0] == "NULLABLE" for d in ds)
+    uses_nullable = _nullable_dep(rd) or any(
+        _nullable_dep(ev.ctrl) or (ev.recv is not None and _nullable_dep(deps_of(ev.recv))) or
+        any(_nullable_dep(deps_of(a)) for a in ev.args) for ev, _ in events(st_, None, own=True)
+        if ev.kind in ("write", "call", "bcall", "iter"))
+    ob.decide("R1", "C14.2", ft, "follow-fill-for-nullable", uses_nullable,
               "nullable productions are entered under the FOLLOW symbols of their head",
               "the table does not use nullability at all", st_, site=site_of(prog, ft, ft.node))
     overwrites = []
@@ -93,8 +110,12 @@ def run(eng, rep, tier):
                                                for tg in sub.targets):
             if not (isinstance(sub.value, ast.List) and not sub.value.elts):
                 overwrites.append(sub)
+    # accumulating stores into a cell: `table[h][t].append(p)`, `row.setdefault(t, []).append(p)`, `row[t].append(p)`
+    def _cell_expr(e):
+        return isinstance(e, ast.Subscript) or (isinstance(e, ast.Call) and isinstance(e.func, ast.Attribute)
+                                                and e.func.attr in ("setdefault", "get"))
     appends = [c for c in ast.walk(ft.node) if isinstance(c, ast.Call) and isinstance(c.func, ast.Attribute)
-               and c.func.attr == "append" and isinstance(c.func.value, ast.Subscript)]
+               and c.func.attr == "append" and _cell_expr(c.func.value)]
     from .flow import _path_to
     conditional = []
     for c in appends:
@@ -127,8 +148,7 @@ def run(eng, rep, tier):
         for sub in ast.walk(f.node):
             if isinstance(sub, ast.If) and isinstance(sub.test, ast.Compare) and "len(" in ast.unparse(sub.test) and \
                     isinstance(sub.test.ops[0], ast.NotEq):
-                if any(isinstance(c, ast.Call) and isinstance(c.func, ast.Attribute) and c.func.attr == "append"
-                       for c in ast.walk(sub)):
+                if any(_requeues(c, helpers_of(prog, f)) for c in ast.walk(sub) if isinstance(c, ast.Call)):
                     ok = True
         whiles = [w for w in ast.walk(f.node) if isinstance(w, ast.While)]
         ob.decide("R10a", "C14.4", f, "requeue-on-growth", ok and bool(whiles),
